@@ -543,41 +543,9 @@ def r_sense(ctx):
            "accepts %s (Constraint accepts %s); another sense %s" % (sorted(accepted), sorted(senses), "raises" if closed else "is silently accepted"), loc(fn, fn))
     # _expression_to_solver: cons + F @ Fweights + sum(G * Gweights)
     r_expr_to_solver(ctx, be)
-    # MOSEK
-    mb = _be(repo, "mosek")
-    fn = mb.methods["send_constraint_to_solver"]
-    ctx.unit(qualname(fn))
-    cons = params_of(fn)[1]
-    subject = cons + ".equality_or_inequality"
-    tr = _sparse_unpack(fn)
-    alpha = tr[5] if tr else None
-    accepted = set()
-    for lit, key in (("inequality", "up"), ("equality", "fx")):
-        ps = paths_for(fn, lit)
-        ok = bool(ps) and all(p.kind != "raise" for p in ps)
-        what = "raises"
-        if ok:
-            accepted.add(lit)
-            for p in ps:
-                calls = [ev.value for ev in p.trace if isinstance(ev, ast.Expr) and isinstance(ev.value, ast.Call) and call_name(ev.value) == "putconbound"]
-                good = len(calls) == 1 and len(calls[0].args) == 4 and (dotted(calls[0].args[1]) or "").endswith("boundkey." + key) \
-                    and _is_neg_of(calls[0].args[3], alpha) and (key == "up" or _is_neg_of(calls[0].args[2], alpha))
-                if not good:
-                    ok, what = False, "becomes `%s`" % (src(calls[0]) if calls else "nothing")
-                    break
-        ctx.ob("R-SENSE", "MosekWrapper.send_constraint_to_solver::%s" % lit, ok,
-               "'%s' becomes bound key %s with bound -constant" % (lit, key) if ok else "'%s' %s" % (lit, what), loc(fn, fn))
-    other = paths_for(fn, "\0other")
-    closed = bool(other) and all(p.kind == "raise" for p in other)
-    ctx.ob("R-SENSE", "MosekWrapper.send_constraint_to_solver::literal set", closed and accepted == senses,
-           "accepts exactly the senses Constraint accepts and raises on anything else" if closed and accepted == senses else
-           "accepts %s; another sense %s" % (sorted(accepted), "raises" if closed else "is silently accepted"), loc(fn, fn))
-    fn = mb.methods["send_lmi_constraint_to_solver"]
-    tr2 = _sparse_unpack(fn)
-    calls = [n for n in ast.walk(fn) if isinstance(n, ast.Call) and call_name(n) == "putconbound"]
-    ok = tr2 is not None and len(calls) == 1 and (dotted(calls[0].args[1]) or "").endswith("boundkey.fx") and _is_neg_of(calls[0].args[2], tr2[5]) and _is_neg_of(calls[0].args[3], tr2[5])
-    ctx.ob("R-SENSE", "MosekWrapper.send_lmi_constraint_to_solver::entry equality", ok,
-           "each entry is an equality with bound -constant" if ok else "entry rows are bounded by `%s`" % (src(calls[0]) if calls else "nothing"), loc(fn, fn))
+    # MOSEK: bound key and bound of each sense, rejection of any other sense and the entry equalities of an LMI are decided on the unrolled row programs
+    from . import mosekprog
+    mosekprog.r_mosek_rows(ctx, senses)
 
 
 def _sense_literal(test, cons):
@@ -781,27 +749,9 @@ def r_sign(ctx):
             ctx.ob("R-SIGN", "PEP.%s::pairs a multiplier with its own constraint (%s)" % (rec.name, _family(s.value)[0]), okp,
                    "multiplier and constrained object come from the same loop element" if okp else
                    "multiplier of %s combined with %s" % (sorted(recv), sorted(objs)), loc(rec, s))
-    # MOSEK sibling agreement of the dual sign transformation
-    mb = _be(repo, "mosek")
-    fn = mb.methods["_recover_dual_values"]
-    out = _returned_list_name(fn)
-    bars, ys = [], []
-    items = [n.args[0] for n in ast.walk(fn) if isinstance(n, ast.Call) and call_name(n) == "append" and dotted(n.func.value) == out]
-    for s0 in flow.stmts_of(fn, ast.Assign):
-        if dotted(s0.targets[0]) == out and isinstance(s0.value, ast.List):
-            items = list(s0.value.elts) + items
-    for a in items:
-        if True:
-            neg = isinstance(a, ast.UnaryOp) and isinstance(a.op, ast.USub)
-            txt = src(a)
-            if "getbarsj" in txt:
-                bars.append(neg)
-            else:
-                ys.append(neg)
-    ok = len(bars) == 2 and all(bars) and ys and not any(ys)
-    ctx.ob("R-SIGN", "MosekWrapper._recover_dual_values::dual sign convention", ok,
-           "both matrix multipliers are negated bar-duals, scalar multipliers are y unchanged" if ok else
-           "matrix multipliers negated: %s, scalar multipliers negated: %s (the two matrix duals must carry the same transformation)" % (bars, ys), loc(fn, fn))
+    # MOSEK sibling agreement of the dual sign transformation: decided on the unrolled recovery program (minus the bar-duals, y unchanged)
+    from . import mosekprog
+    mosekprog.r_mosek_duals(ctx)
 
 
 def _family(expr):
@@ -1161,66 +1111,11 @@ def r_lmienc(ctx):
     ctx.ob("R-LMIENC", "CvxpyWrapper.send_lmi_constraint_to_solver::entry equalities", oke,
            "M[i, j] == translation(entry (i, j)) for every (i, j) of the matrix" if oke else
            "the entry equalities are not `M[i,j] == translation(psd[i,j])` over the full index range", loc(fn, fn))
-    # MOSEK coupling coefficient
+    # MOSEK: rows, coupling coefficient and matrix variable of an LMI are decided by unrolling the task program (rules/mosekprog.py)
+    from . import mosekprog
+    mosekprog.r_mosek_rows(ctx)
     mb = _be(repo, "mosek")
     fn = mb.methods["send_lmi_constraint_to_solver"]
-    psd = params_of(fn)[-1]
-    mats = [n for n in ast.walk(fn) if isinstance(n, ast.Call) and call_name(n) == "appendsparsesymmat" and len(n.args) == 4 and isinstance(n.args[3], ast.List)]
-    okm = False
-    msg = "coupling matrix not found"
-    if 1 <= len(mats) <= 2:
-        try:
-            c = mats[0]
-            ij = []
-            cur = common.stmt_of(c)
-            while True:
-                lp0 = flow.in_loop(cur)
-                if lp0 is None:
-                    break
-                if isinstance(lp0.target, ast.Name):
-                    ij.insert(0, lp0.target.id)
-                cur = lp0
-            if len(ij) != 2:
-                raise AnalysisError("the coupling matrix is not built inside two entry loops")
-            i_, j_ = ij
-            got = {}
-            for diag in (True, False):
-                chosen = []
-                for cm in mats:
-                    reach = True
-                    for t, br, _if in flow.conditions_guarding(common.stmt_of(cm)):
-                        v = _fold(t, diag, (i_, j_))
-                        if bool(v) != br:
-                            reach = False
-                    if reach:
-                        chosen.append(cm)
-                if len(chosen) != 1:
-                    raise AnalysisError("%d coupling matrices are built for %s entries" % (len(chosen), "diagonal" if diag else "off-diagonal"))
-                cm = chosen[0]
-                rr, cc = src(cm.args[1]).replace(" ", ""), src(cm.args[2]).replace(" ", "")
-                pos_ok = rr in ("[max(%s,%s)]" % (i_, j_), "[max(%s,%s)]" % (j_, i_)) and cc in ("[min(%s,%s)]" % (i_, j_), "[min(%s,%s)]" % (j_, i_))
-                coef = cm.args[3].elts[0]
-                if isinstance(coef, ast.Name):
-                    ds = [s0 for s0 in flow.stmts_of(fn, ast.Assign) if dotted(s0.targets[0]) == coef.id]
-                    live = []
-                    for d0 in ds:
-                        reach = True
-                        for t, br, _if in flow.conditions_guarding(d0):
-                            if bool(_fold(t, diag, (i_, j_))) != br:
-                                reach = False
-                        if reach:
-                            live.append(d0)
-                    if len(live) != 1:
-                        raise AnalysisError("coupling coefficient `%s` has %d reaching definitions" % (coef.id, len(live)))
-                    coef = live[0].value
-                got[diag] = (_fold(coef, diag, (i_, j_)), pos_ok, rr, cc)
-            okm = got[True][0] == -1 and got[False][0] == Fraction(-1, 2) and got[True][1] and got[False][1]
-            msg = "entry (i, j) is coupled with -1 on the diagonal and -1/2 off the diagonal at (max, min)" if okm else \
-                "coupling coefficient is %s on the diagonal and %s off the diagonal at (%s, %s); a lower-triangular symmetric entry counts twice, so -1 / -1/2 at (max, min) is required" % (
-                    got[True][0], got[False][0], got[False][2], got[False][3])
-        except AnalysisError as e:
-            msg = str(e)
-    ctx.ob("R-LMIENC", "MosekWrapper.send_lmi_constraint_to_solver::coupling coefficient", okm, msg, loc(fn, fn))
     av = [n for n in ast.walk(fn) if isinstance(n, ast.Call) and call_name(n) == "appendbarvars"]
     okb = len(av) == 1 and not flow.in_loop(common.stmt_of(av[0]))
     ctx.ob("R-LMIENC", "MosekWrapper.send_lmi_constraint_to_solver::one matrix variable per LMI", okb,
@@ -1305,9 +1200,20 @@ def r_trilorder(ctx):
     ctx.unit(qualname(fn))
     ps = params_of(fn)
     tril, size = ps[-2], ps[-1]
+    from ..miniint import IndexInterp, Matrix
     for n in (1, 2, 3, 4):
         try:
-            writes = _run_index_program(fn, {size: n}, tril)
+            it = IndexInterp({size: n}, symbolic={tril})
+            ret = it.run(fn.body)
+            if not isinstance(ret, Matrix):
+                ctx.ob("R-TRILORDER", "MosekWrapper._get_Gram_from_mosek::size=%d" % n, False,
+                       "the unpacking routine does not return the matrix it fills (it returns `%s`)" % (ret,), loc(fn, fn))
+                continue
+            writes = {}
+            for (idx, v) in ret.order:
+                if not (isinstance(idx, tuple) and len(idx) == 2 and isinstance(v, tuple) and v[0] == "read" and v[1] == tril and isinstance(v[2], int)):
+                    raise AnalysisError("matrix entry %s assigned from %s" % (idx, v))
+                writes[idx] = v[2]
         except AnalysisError as e:
             ctx.ob("R-TRILORDER", "MosekWrapper._get_Gram_from_mosek::size=%d" % n, False, "index program not interpretable: %s" % e, loc(fn, fn))
             continue
@@ -1322,55 +1228,6 @@ def r_trilorder(ctx):
         ctx.ob("R-TRILORDER", "MosekWrapper._get_Gram_from_mosek::size=%d" % n, ok,
                "entry k of the packed lower triangle (column-major) fills (row, col) and (col, row)" if ok else
                "for size %d the unpacking maps %s, MOSEK's packed lower triangle is %s" % (n, sorted(writes.items()), sorted(want.items())), loc(fn, fn))
-
-
-def _run_index_program(fn, env, tril):
-    """Concrete unrolling of a pure index program (range loops, integer counters, G[a, b] = tril[c])."""
-    env = dict(env)
-    writes = {}
-
-    def iv(e):
-        if isinstance(e, ast.Constant) and isinstance(e.value, int):
-            return e.value
-        if isinstance(e, ast.Name) and e.id in env:
-            return env[e.id]
-        if isinstance(e, ast.BinOp) and isinstance(e.op, (ast.Add, ast.Sub, ast.Mult, ast.FloorDiv)):
-            a, b = iv(e.left), iv(e.right)
-            return {ast.Add: a + b, ast.Sub: a - b, ast.Mult: a * b, ast.FloorDiv: a // b if b else 0}[type(e.op)]
-        raise AnalysisError("index expression `%s`" % src(e))
-
-    def run(stmts):
-        for s in stmts:
-            if isinstance(s, ast.For) and isinstance(s.iter, ast.Call) and call_name(s.iter) == "range" and isinstance(s.target, ast.Name):
-                for v in range(*[iv(a) for a in s.iter.args]):
-                    env[s.target.id] = v
-                    run(s.body)
-            elif isinstance(s, ast.Assign) and isinstance(s.targets[0], ast.Name) and not (isinstance(s.value, ast.Subscript) and dotted(s.value.value) == tril):
-                if isinstance(s.value, ast.Call):
-                    env[s.targets[0].id] = "matrix"
-                else:
-                    env[s.targets[0].id] = iv(s.value)
-            elif isinstance(s, ast.AugAssign) and isinstance(s.target, ast.Name) and isinstance(s.op, ast.Add):
-                env[s.target.id] = env[s.target.id] + iv(s.value)
-            elif isinstance(s, ast.Assign) and all(isinstance(t, ast.Subscript) and isinstance(t.slice, ast.Tuple) for t in s.targets):
-                if isinstance(s.value, ast.Subscript) and dotted(s.value.value) == tril:
-                    k = iv(s.value.slice)
-                elif isinstance(s.value, ast.Name) and isinstance(env.get(s.value.id), tuple) and env[s.value.id][0] == "tril":
-                    k = env[s.value.id][1]
-                else:
-                    raise AnalysisError("matrix entry assigned from `%s`" % src(s.value))
-                for t in s.targets:
-                    a, b = [iv(x) for x in t.slice.elts]
-                    writes[(a, b)] = k
-            elif isinstance(s, ast.Assign) and isinstance(s.targets[0], ast.Name) and isinstance(s.value, ast.Subscript) and dotted(s.value.value) == tril:
-                env[s.targets[0].id] = ("tril", iv(s.value.slice))
-            elif isinstance(s, ast.Return):
-                return
-            else:
-                raise AnalysisError("statement `%s`" % norm_stmt(s)[:50])
-
-    run(fn.body)
-    return writes
 
 
 def r_psdstore(ctx):
